@@ -326,7 +326,10 @@ pub fn dump_hir<'tcx>(tcx: TyCtxt<'tcx>) -> J {
     for ldid in owners {
         let did = ldid.to_def_id();
         let kind = tcx.def_kind(did);
-        if !matches!(kind, DefKind::Fn | DefKind::AssocFn) {
+        if !matches!(
+            kind,
+            DefKind::Fn | DefKind::AssocFn | DefKind::Const { .. } | DefKind::AssocConst { .. }
+        ) {
             continue;
         }
         let Some(body) = tcx.hir_maybe_body_owned_by(ldid) else {
